@@ -32,16 +32,16 @@ Proof. exact verify_checksum_spec. Qed.
 (* entries are located by the first recorded trailing sub-path, shortest first *)
 Theorem C12_find : forall d p,
   find_entry d p = match find (fun q => match get_entry (class_map d p) q with Some _ => true | None => false end)
-                              (walk_paths (rev (comps p)) []) with
+                              (walk_paths (rev (pcomps p)) []) with
                    | Some q => get_entry (class_map d p) q | None => None end.
 Proof. exact find_entry_spec. Qed.
 (* for ordinary dir/.../file paths the components are the segments *)
-Theorem C12_ordinary_paths : forall segs, segs <> [] -> Forall ordinary segs -> comps (join_with 47 segs) = map CNormal segs.
+Theorem C12_ordinary_paths : forall segs, segs <> [] -> Forall ordinary segs -> pcomps (join_with 47 segs) = map CNormal segs.
 Proof. exact comps_ordinary. Qed.
 
 Definition ex12 : distinfo := di_from_bytes (lit "SHA1 (dir/foo.tgz) = aa" ++ [10] ++ lit "Size (dir/foo.tgz) = 3 bytes" ++ [10] ++ lit "SHA1 (foo.tgz) = bb" ++ [10]).
 Example C12_example :
-  walk_paths (rev (comps (lit "a/dir/foo.tgz"))) [] = [lit "foo.tgz"; lit "dir/foo.tgz"; lit "a/dir/foo.tgz"] /\
+  walk_paths (rev (pcomps (lit "a/dir/foo.tgz"))) [] = [lit "foo.tgz"; lit "dir/foo.tgz"; lit "a/dir/foo.tgz"] /\
   option_map ename (find_entry ex12 (lit "/x/dir/foo.tgz")) = Some (lit "foo.tgz") /\
   verify_size ex12 (lit "dir/foo.tgz") (Some (lit "abc")) = inr VMissingSize /\
   option_map ename (find_entry ex12 (lit "bar.tgz")) = None.
